@@ -23,7 +23,7 @@ CONSTANTS
   DepFees = {0, 5}
   WithKeysAndPrices = TRUE
   FeePaids = {1}
-  StakePowers = {1, 2, 3}
+  StakePowers = {0, 1, 2, 3}
   WatchNames = {}
   KeepHist = TRUE
   TwoLevel = TRUE
